@@ -278,6 +278,12 @@ func (sc fScenario) body(ff fFaults) explore.Body {
 			octx, cancel := context.WithCancel(ctx)
 			if round == 0 && (ff.ms || ff.kms) {
 				fw.w.MS.Cancel, fw.w.KMS.Cancel = cancel, cancel
+				// a slow call: the clock crosses into the next creation-stamp bucket while it is in flight
+				slow := func() {
+					vclock.Advance(P * time.Second)
+					vsched.GlobalEvent("slow-call")
+				}
+				fw.w.MS.Slow, fw.w.KMS.Slow = slow, slow
 			}
 			pan := safe(func() {
 				if sc.op == "enc" {
@@ -287,6 +293,7 @@ func (sc fScenario) body(ff fFaults) explore.Body {
 				}
 			})
 			fw.w.MS.Cancel, fw.w.KMS.Cancel = nil, nil
+			fw.w.MS.Slow, fw.w.KMS.Slow = nil, nil
 			cancel()
 			fw.setFaults(false, ff)
 			if pan != "" {
@@ -406,7 +413,7 @@ func fScenarios(thorough bool) []fScenario {
 func CheckF(prop string, ff fFaults) func(r *Report) {
 	return func(r *Report) {
 		r.Level = "fault_enumeration"
-		r.Rule = "one encrypt (or decrypt) from each prepared start state (cold, warm, rotating, revoked IK, revoked SK, SK-only, stale) with every placement of up to D non-default answers over the metastore (error / false duplicate / error-after-write / caller's context cancelled during the call), KMS (error / context cancelled), AEAD and secret-allocator calls it makes, followed by the same operation with faults stopped and a full close; non-trivial = executions in which at least one fault was injected"
+		r.Rule = "one encrypt (or decrypt) from each prepared start state (cold, warm, rotating, revoked IK, revoked SK, SK-only, stale) with every placement of up to D non-default answers over the metastore (error / false duplicate / error-after-write / caller's context cancelled during the call / slow call during which the clock crosses a creation-stamp bucket), KMS (error / context cancelled / slow), AEAD and secret-allocator calls it makes, followed by the same operation with faults stopped and a full close; non-trivial = executions in which at least one fault was injected"
 		for _, sc := range fScenarios(r.Thorough()) {
 			if prop == "C02" && sc.op != "enc" {
 				continue
